@@ -52,6 +52,7 @@ type Op struct {
 	Len   int   // content length (0 = default)
 	Split []int // Create: sizes of the Write calls; SetReader: sizes the source reader returns per call
 	Paced bool  // Create: let the storing side drain after every Write (a slow writer)
+	DefaultLevel bool // Begin without a level argument (the documented default, ReadCommitted)
 }
 
 const DefaultLen = 8
@@ -66,6 +67,9 @@ func (o Op) String() string {
 	}
 	switch o.Kind {
 	case Begin:
+		if o.DefaultLevel {
+			return fmt.Sprintf("T%d=Begin()", o.Actor)
+		}
 		return fmt.Sprintf("T%d=Begin(%s)", o.Actor, o.Level)
 	case Commit, Rollback, GetKeysOp:
 		return a + o.Kind.String() + "()"
@@ -308,7 +312,13 @@ func (r *Runner) apply(op Op) *Mismatch {
 			return m
 		}
 	case Begin:
-		tx, err := r.In.DB.Begin(r.ctx, imodel.TxIsoLevel(op.Level))
+		var tx fs_db.Tx
+		var err error
+		if op.DefaultLevel {
+			tx, err = r.In.DB.Begin(r.ctx)
+		} else {
+			tx, err = r.In.DB.Begin(r.ctx, imodel.TxIsoLevel(op.Level))
+		}
 		if err != nil {
 			return r.mism(op, "Begin failed: "+dbh.ShortErr(err), "seq|Begin|exp=nil,obs="+dbh.Class(err).String())
 		}
